@@ -102,7 +102,8 @@ class Bool(T):
 
 
 class Str(T):
-    def __init__(self, regex=None, maxlen=None, ascii_only=False):
+    def __init__(self, regex=None, maxlen=None, ascii_only=False, icase=False):
+        self.icase = icase
         self.regex = regex
         self.maxlen = maxlen
         self.ascii_only = ascii_only
@@ -111,7 +112,7 @@ class Str(T):
         v = SV(z3.String(fresh_name(name)))
         if self.regex is not None:
             from .rx import Pat
-            ip.ctx.assume(z3.InRe(v.t, Pat.of(_re.compile(self.regex)).body_lang()))
+            ip.ctx.assume(z3.InRe(v.t, Pat.of(_re.compile(self.regex, _re.IGNORECASE if self.icase else 0)).body_lang()))
         if self.maxlen is not None:
             ip.ctx.assume(z3.Length(v.t) <= self.maxlen)
             ip.hooks.setdefault(('strlen_bound',), {})[v.t.get_id()] = self.maxlen
@@ -340,3 +341,10 @@ class Unit:
         self.native_setup = native_setup
         self.thorough_only = thorough_only
         self.setup_params = setup_params
+
+
+class Lemmas:
+    """result of a native lemma target: list of (label, z3 formula that must be valid)"""
+
+    def __init__(self, items):
+        self.items = list(items)
